@@ -96,6 +96,7 @@ func cmdProp(args []string) {
 	tier := fs.String("tier", "", "quick|thorough (default: $VERIF_TIER or quick)")
 	timeout := fs.Int("timeout", 0, "solver timeout (s)")
 	only := fs.String("only", "", "restrict to packages matching this substring (debugging)")
+	evDir := fs.String("evidence-dir", "", "directory for the evidence file (default <verif>/evidence; seeded-change runs use a scratch directory)")
 	verbose := fs.Bool("v", false, "verbose")
 	fs.Parse(args)
 	if fs.NArg() != 1 {
@@ -383,7 +384,13 @@ func cmdProp(args []string) {
 		"wall_s":      round3(time.Since(t0).Seconds()),
 		"violations":  violations,
 	}
-	evPath := filepath.Join(*verifRoot, "evidence", id+".json")
+	if *evDir == "" {
+		*evDir = filepath.Join(*verifRoot, "evidence")
+	}
+	if *only != "" && *evDir == filepath.Join(*verifRoot, "evidence") {
+		*evDir = filepath.Join(os.TempDir(), "gcv-partial-evidence") // partial runs never overwrite the registered evidence
+	}
+	evPath := filepath.Join(*evDir, id+".json")
 	os.MkdirAll(filepath.Dir(evPath), 0o755)
 	eb, _ := json.MarshalIndent(ev, "", " ")
 	os.WriteFile(evPath, eb, 0o644)
